@@ -1,7 +1,466 @@
-//! C23 — not implemented yet.
-use vmon::report::Args;
+//! C23 — full-text search matches the tokenised documents.
+//!
+//! Case = small-vocabulary corpus (8-20 words incl. unicode and mixed case, empty and NULL
+//! documents, punctuation between words) with an inverted index configured without stemming /
+//! stop words / ascii folding (base tokenizer simple or whitespace, lower_case), a history
+//! (appends left unindexed, deletes, optimize_indices, compaction) and term / OR / AND / phrase
+//! queries. Oracle = own tokenizer model + match-set evaluation; scores must be non-increasing.
 
-pub fn run(_args: &Args) -> i32 {
-    eprintln!("HARNESS-ERROR C23 not implemented");
-    2
+use crate::core::*;
+use arrow_array::{Float32Array, Int64Array, RecordBatch, StringArray};
+use arrow_schema::{DataType, Field, Schema};
+use futures::TryStreamExt;
+use lance::dataset::optimize::{compact_files, CompactionOptions};
+use lance::dataset::{WriteMode, WriteParams};
+use lance::Dataset;
+use lance_encoding::version::LanceFileVersion;
+use lance_index::optimize::OptimizeOptions;
+use lance_index::scalar::inverted::query::{FtsQuery, MatchQuery, Operator, PhraseQuery};
+use lance_index::scalar::{FullTextSearchQuery, InvertedIndexParams};
+use lance_index::{DatasetIndexExt, IndexType};
+use serde_json::json;
+use std::collections::{BTreeMap, BTreeSet};
+use std::sync::atomic::{AtomicU64, Ordering as AO};
+use std::sync::Arc;
+use vmon::prng::{fnv_str, Rng};
+use vmon::report::{Args, Report};
+
+const WORDS: &[&str] = &[
+    "lance", "data", "Index", "vector", "scan", "Alpha", "beta", "zeta", "x", "ab", "日本", "東京", "é", "über", "ΑΒΓ", "42", "a1", "fast", "row", "Lance",
+];
+
+/// model of the configured tokenizer: base simple (split on non-alphanumeric) or whitespace (split
+/// on ASCII whitespace), then lower case; no stemming, stop words, folding or length limit
+fn tokenize(base: &str, s: &str) -> Vec<String> {
+    let parts: Vec<&str> = if base == "simple" {
+        s.split(|c: char| !c.is_alphanumeric()).collect()
+    } else {
+        s.split(|c: char| c.is_ascii_whitespace()).collect()
+    };
+    parts.into_iter().filter(|p| !p.is_empty()).map(|p| p.to_lowercase()).collect()
+}
+
+#[derive(Clone, Debug)]
+enum Q {
+    Or(Vec<String>),
+    And(Vec<String>),
+    Phrase(Vec<String>),
+}
+
+fn matches(q: &Q, base: &str, doc: &[String]) -> bool {
+    let toks = |ws: &Vec<String>| -> Vec<String> { tokenize(base, &ws.join(" ")) };
+    match q {
+        Q::Or(ws) => toks(ws).iter().any(|t| doc.contains(t)),
+        Q::And(ws) => {
+            let t = toks(ws);
+            !t.is_empty() && t.iter().all(|t| doc.contains(t))
+        }
+        Q::Phrase(ws) => {
+            let t = toks(ws);
+            !t.is_empty() && doc.windows(t.len()).any(|w| w == t.as_slice())
+        }
+    }
+}
+
+pub const AND_AS_OR_SIG: &str = "fts-and-query-evaluated-as-or-on-unindexed-rows";
+pub const AND_ABSENT_SIG: &str = "fts-and-query-ignores-terms-absent-from-the-index";
+pub const PHRASE_UNINDEXED_SIG: &str = "fts-phrase-query-ignores-unindexed-rows";
+pub const PHRASE_POS_SIG: &str = "fts-phrase-query-misses-match-when-a-phrase-term-also-occurs-earlier";
+
+/// the document matches the phrase, but before the first match some phrase token occurs at a
+/// position that puts it "behind" the alignment (relative position smaller than the match's)
+fn phrase_behind(q: &[String], doc: &[String]) -> bool {
+    if q.is_empty() {
+        return false;
+    }
+    let Some(m) = (0..doc.len().saturating_sub(q.len() - 1)).find(|i| doc[*i..*i + q.len()] == *q) else { return false };
+    q.iter().enumerate().any(|(k, t)| doc.iter().enumerate().any(|(p, d)| d == t && (p as i64 - k as i64) < m as i64))
+}
+
+pub fn run(args: &Args) -> i32 {
+    let selftest = args.extra.contains_key("selftest");
+    let report = Report::new(
+        args,
+        "exploration",
+        "case = (corpus over a 8-20 word vocabulary incl. unicode / mixed case / punctuation, empty and NULL documents; inverted index: base tokenizer simple|whitespace, lower_case, no stemming / stop words / folding, positions; \
+         history: unindexed appends, deletes, optimize_indices, compaction; query: single term, multi-term OR, AND, phrase; optional limit). Oracle = tokenizer model and match-set evaluation. \
+         distinct = hash(tokenizer, history kind, query kind and length, limit); non-trivial = the query matches neither 0 nor all live documents",
+        (75, 900),
+    )
+    .with_min_nontrivial(20);
+    let threads = n_threads();
+    let max_cases: u64 = args.tier.pick(3000, 300_000);
+    let queries_per_state = args.tier.pick(10, 24);
+    let next = AtomicU64::new(0);
+    let only_case: Option<u64> = args.extra.get("case").and_then(|s| s.parse().ok());
+    let st_fired = AtomicU64::new(0);
+    let st_total = AtomicU64::new(0);
+
+    run_threads(threads, |_t, rt| loop {
+        let mut case = next.fetch_add(1, AO::Relaxed);
+        if let Some(c) = only_case {
+            if case > 0 {
+                break;
+            }
+            case = c;
+        }
+        if case >= max_cases || !report.time_left() {
+            break;
+        }
+        let mut rng = Rng::for_case(args.seed, case);
+        rt.block_on(async {
+            let base = *rng.pick(&["simple", "simple", "whitespace"]);
+            let nvocab = rng.urange(8, 20);
+            let vocab: Vec<&str> = rng.sample_indices(WORDS.len(), nvocab).into_iter().map(|i| WORDS[i]).collect();
+            let seps: &[&str] = if base == "simple" { &[" ", " ", ", ", "  ", "-", ". ", " / "] } else { &[" ", " ", "  ", "\t", " \n"] };
+            let gen_doc = |rng: &mut Rng| -> Option<String> {
+                match rng.below(14) {
+                    0 => None,
+                    1 => Some(String::new()),
+                    2 => Some(" ".to_string()),
+                    _ => {
+                        let n = rng.urange(1, 9);
+                        let mut s = String::new();
+                        if rng.chance(1, 8) {
+                            s.push(' ');
+                        }
+                        for i in 0..n {
+                            if i > 0 {
+                                s.push_str(*rng.pick(seps));
+                            }
+                            let w = *rng.pick(&vocab);
+                            // random case variation
+                            if rng.chance(1, 6) {
+                                s.push_str(&w.to_uppercase());
+                            } else {
+                                s.push_str(w);
+                            }
+                        }
+                        if base == "simple" && rng.chance(1, 6) {
+                            s.push('!');
+                        }
+                        Some(s)
+                    }
+                }
+            };
+            let schema = Arc::new(Schema::new(vec![Field::new("id", DataType::Int64, false), Field::new("doc", DataType::Utf8, true)]));
+            let mut next_id = 0i64;
+            let mut model: BTreeMap<i64, Option<String>> = BTreeMap::new();
+            let mk = |rows: &[(i64, Option<String>)]| -> RecordBatch {
+                RecordBatch::try_new(
+                    schema.clone(),
+                    vec![
+                        Arc::new(Int64Array::from(rows.iter().map(|r| r.0).collect::<Vec<_>>())),
+                        Arc::new(StringArray::from(rows.iter().map(|r| r.1.clone()).collect::<Vec<_>>())),
+                    ],
+                )
+                .unwrap()
+            };
+            let version = *rng.pick(&[LanceFileVersion::V2_0, LanceFileVersion::V2_1]);
+            let nfrag = rng.urange(1, 3);
+            let total = rng.urange(10, args.tier.pick(300, 1500));
+            let mut ds: Option<Dataset> = None;
+            for f in 0..nfrag {
+                let rows: Vec<(i64, Option<String>)> = (0..(total / nfrag).max(1))
+                    .map(|_| {
+                        let r = (next_id, gen_doc(&mut rng));
+                        next_id += 1;
+                        r
+                    })
+                    .collect();
+                let b = mk(&rows);
+                let p = WriteParams { mode: if f == 0 { WriteMode::Create } else { WriteMode::Append }, data_storage_version: Some(version), ..Default::default() };
+                let res = match ds.as_mut() {
+                    None => Dataset::write(reader_of(vec![b]), &unique_uri("c23"), Some(p)).await.map(Some),
+                    Some(d) => d.append(reader_of(vec![b]), Some(p)).await.map(|_| None),
+                };
+                match res {
+                    Ok(Some(d)) => ds = Some(d),
+                    Ok(None) => {}
+                    Err(e) => {
+                        report.harness_error(&format!("case {case}: write: {e}"));
+                        return;
+                    }
+                }
+                model.extend(rows);
+            }
+            let mut ds = ds.unwrap();
+            let params = InvertedIndexParams::default()
+                .base_tokenizer(base.to_string())
+                .lower_case(true)
+                .stem(false)
+                .remove_stop_words(false)
+                .ascii_folding(false)
+                .max_token_length(None)
+                .with_position(true);
+            if let Err(e) = guarded(ds.create_index(&["doc"], IndexType::Inverted, Some("doc_idx".into()), &params, true)).await {
+                report.harness_error(&format!("case {case}: create inverted index: {e:?}"));
+                return;
+            }
+            let mut unindexed = false;
+            let mut unindexed_ids: BTreeSet<i64> = BTreeSet::new();
+            report.count("tables", 1);
+            let table_desc = format!("tokenizer={base} vocab={} docs={} frags={nfrag} v={}", vocab.len(), model.len(), storage_version_name(version));
+            let mut history: Vec<String> = vec![];
+            let nstates = rng.urange(1, 3);
+            for state in 0..nstates {
+                if !report.time_left() {
+                    break;
+                }
+                if state > 0 {
+                    match rng.below(5) {
+                        0 | 1 => {
+                            let n = rng.urange(1, 40);
+                            let rows: Vec<(i64, Option<String>)> = (0..n)
+                                .map(|_| {
+                                    let r = (next_id, gen_doc(&mut rng));
+                                    next_id += 1;
+                                    r
+                                })
+                                .collect();
+                            let p = WriteParams { mode: WriteMode::Append, data_storage_version: Some(version), ..Default::default() };
+                            if let Err(e) = guarded_op("append", ds.append(reader_of(vec![mk(&rows)]), Some(p))).await {
+                                report.harness_error(&format!("case {case}: {e}"));
+                                return;
+                            }
+                            unindexed_ids.extend(rows.iter().map(|r| r.0));
+                            model.extend(rows);
+                            unindexed = true;
+                            history.push(format!("append({n})"));
+                        }
+                        2 => {
+                            let all: Vec<i64> = model.keys().copied().collect();
+                            if all.len() > 4 {
+                                let k = rng.urange(1, all.len() / 3);
+                                let victims: Vec<i64> = rng.sample_indices(all.len(), k).into_iter().map(|i| all[i]).collect();
+                                let del = format!("id IN ({})", victims.iter().map(|v| v.to_string()).collect::<Vec<_>>().join(","));
+                                if let Err(e) = guarded_op("delete", ds.delete(&del)).await {
+                                    report.harness_error(&format!("case {case}: {e}"));
+                                    return;
+                                }
+                                for v in victims {
+                                    model.remove(&v);
+                                }
+                                history.push(format!("delete({k})"));
+                            }
+                        }
+                        3 => {
+                            let o = if rng.bool() { OptimizeOptions::append() } else { OptimizeOptions::merge(10) };
+                            if let Err(e) = guarded_op("optimize_indices", ds.optimize_indices(&o)).await {
+                                report.harness_error(&format!("case {case}: {e}; history {history:?}"));
+                                return;
+                            }
+                            unindexed = false;
+                            unindexed_ids.clear();
+                            history.push("optimize".into());
+                        }
+                        _ => {
+                            let opts = CompactionOptions { target_rows_per_fragment: 100_000, materialize_deletions_threshold: 0.0, ..Default::default() };
+                            match guarded(compact_files(&mut ds, opts, None)).await {
+                                Ok(m) => history.push(format!("compact(-{}+{})", m.fragments_removed, m.fragments_added)),
+                                Err(e) => {
+                                    report.harness_error(&format!("case {case}: compact: {e:?}"));
+                                    return;
+                                }
+                            }
+                        }
+                    }
+                }
+                let state_kind = history.last().map(|s| s.split('(').next().unwrap().to_string()).unwrap_or_else(|| "fresh".into());
+                let docs: BTreeMap<i64, Vec<String>> = model.iter().map(|(i, d)| (*i, d.as_ref().map(|s| tokenize(base, s)).unwrap_or_default())).collect();
+                for qi in 0..queries_per_state {
+                    if !report.time_left() {
+                        break;
+                    }
+                    let word = |rng: &mut Rng| -> String {
+                        let w = if rng.chance(1, 10) { *rng.pick(WORDS) } else { *rng.pick(&vocab) };
+                        if rng.chance(1, 5) { w.to_uppercase() } else { w.to_string() }
+                    };
+                    let q = match rng.below(8) {
+                        0 | 1 => Q::Or(vec![word(&mut rng)]),
+                        2 | 3 => Q::Or((0..rng.urange(2, 4)).map(|_| word(&mut rng)).collect()),
+                        4 | 5 => Q::And((0..rng.urange(2, 3)).map(|_| word(&mut rng)).collect()),
+                        _ => {
+                            // phrases taken from a document (so that some match), or random
+                            let src: Vec<&Vec<String>> = docs.values().filter(|d| d.len() >= 2).collect();
+                            if !src.is_empty() && rng.chance(2, 3) {
+                                let d = *rng.pick(&src);
+                                let a = rng.usize_below(d.len() - 1);
+                                let len = rng.urange(2, 3).min(d.len() - a);
+                                Q::Phrase(d[a..a + len].to_vec())
+                            } else {
+                                Q::Phrase((0..rng.urange(2, 3)).map(|_| word(&mut rng)).collect())
+                            }
+                        }
+                    };
+                    let limit: Option<i64> = if rng.chance(1, 4) { Some(rng.range(1, 12)) } else { None };
+                    let expected: BTreeSet<i64> = docs.iter().filter(|(_, d)| matches(&q, base, d)).map(|(i, _)| *i).collect();
+                    let (qkind, text) = match &q {
+                        Q::Or(w) => ("or", w.join(" ")),
+                        Q::And(w) => ("and", w.join(" ")),
+                        Q::Phrase(w) => ("phrase", w.join(" ")),
+                    };
+                    let fts = match &q {
+                        Q::Or(_) => FtsQuery::Match(MatchQuery::new(text.clone())),
+                        Q::And(_) => FtsQuery::Match(MatchQuery::new(text.clone()).with_operator(Operator::And)),
+                        Q::Phrase(_) => FtsQuery::Phrase(PhraseQuery::new(text.clone())),
+                    };
+                    let res = guarded(async {
+                        let mut s = ds.scan();
+                        let fq = FullTextSearchQuery::new_query(fts.clone()).with_column("doc".to_string())?.limit(limit);
+                        s.full_text_search(fq)?;
+                        s.project(&["id"])?;
+                        let bs: Vec<RecordBatch> = s.try_into_stream().await?.try_collect().await?;
+                        Ok(bs)
+                    })
+                    .await;
+                    let witness = |detail: serde_json::Value| {
+                        json!({"seed": args.seed, "case": case, "state": state, "query_index": qi, "table": table_desc, "history": history, "query_kind": qkind, "query": text, "limit": limit, "detail": detail})
+                    };
+                    let bs = match res {
+                        Ok(b) => b,
+                        Err(ScanErr::Rejected(e)) => {
+                            report.rejected();
+                            if report.counter("rejected_samples") < 3 {
+                                report.count("rejected_samples", 1);
+                                report.sample(json!({"rejected_query": format!("{qkind}: {text}"), "error": e.chars().take(200).collect::<String>()}));
+                            }
+                            report.case(None);
+                            continue;
+                        }
+                        Err(ScanErr::Timeout) => {
+                            report.inconclusive(&format!("case {case}: fts query timed out"));
+                            continue;
+                        }
+                        Err(ScanErr::Failed(e)) => {
+                            if !selftest {
+                                report.violation(&format!("fts-{qkind}-query-failed"), &e.chars().take(300).collect::<String>(), witness(json!({"error": e})));
+                            }
+                            report.case(None);
+                            continue;
+                        }
+                    };
+                    let mut got: Vec<(i64, f32)> = vec![];
+                    for b in &bs {
+                        let ids = b.column_by_name("id").and_then(|c| c.as_any().downcast_ref::<Int64Array>().cloned());
+                        let sc = b.column_by_name("_score").and_then(|c| c.as_any().downcast_ref::<Float32Array>().cloned());
+                        if let Some(ids) = ids {
+                            for i in 0..b.num_rows() {
+                                got.push((ids.value(i), sc.as_ref().map(|s| s.value(i)).unwrap_or(f32::NAN)));
+                            }
+                        }
+                    }
+                    report.count("queries", 1);
+                    report.count("rows_compared", got.len() as u64);
+                    let nontrivial = !expected.is_empty() && expected.len() < model.len();
+                    if selftest {
+                        if nontrivial && got.pop().is_some() && limit.is_none() {
+                            st_total.fetch_add(1, AO::Relaxed);
+                            let g: BTreeSet<i64> = got.iter().map(|x| x.0).collect();
+                            if g != expected {
+                                st_fired.fetch_add(1, AO::Relaxed);
+                            }
+                        }
+                        report.case(None);
+                        continue;
+                    }
+                    let gset: BTreeSet<i64> = got.iter().map(|x| x.0).collect();
+                    let mut problem: Option<(String, String)> = None;
+                    if gset.len() != got.len() {
+                        problem = Some((format!("fts-{qkind}-duplicate-row"), "a document is returned twice".into()));
+                    } else if let Some(l) = limit {
+                        let (extra, _) = set_diff(&gset, &expected);
+                        let qt = tokenize(base, &text);
+                        if !extra.is_empty() {
+                            let and_as_or = qkind == "and" && extra.iter().all(|i| unindexed_ids.contains(i) && docs.get(i).map(|d| qt.iter().any(|t| d.contains(t))).unwrap_or(false));
+                            let absent: Vec<&String> = qt.iter().filter(|t| !docs.iter().any(|(i, d)| !unindexed_ids.contains(i) && d.contains(*t))).collect();
+                            let and_absent = qkind == "and" && !absent.is_empty()
+                                && extra.iter().all(|i| docs.get(i).map(|d| qt.iter().filter(|t| !absent.contains(t)).all(|t| d.contains(t)) || (unindexed_ids.contains(i) && qt.iter().any(|t| d.contains(t)))).unwrap_or(false));
+                            let sig = if and_absent { AND_ABSENT_SIG.to_string() } else if and_as_or { AND_AS_OR_SIG.to_string() } else { format!("fts-{qkind}-returns-non-matching-documents") };
+                            problem = Some((sig, format!("{} returned documents do not match: ids {:?}", extra.len(), trunc(&extra, 5))));
+                        } else if got.len() != expected.len().min(l as usize) {
+                            // with fewer hits than the limit, the missing ones are known
+                            let missing: Vec<i64> = expected.difference(&gset).copied().collect();
+                            let sig = if qkind == "phrase" && got.len() < expected.len().min(l as usize) && missing.iter().filter(|i| !unindexed_ids.contains(i)).all(|i| phrase_behind(&qt, &docs[i])) && missing.iter().any(|i| unindexed_ids.contains(i)) {
+                                PHRASE_UNINDEXED_SIG.to_string()
+                            } else if qkind == "phrase" && got.len() < expected.len().min(l as usize) && missing.iter().all(|i| phrase_behind(&qt, &docs[i]) || unindexed_ids.contains(i)) {
+                                PHRASE_POS_SIG.to_string()
+                            } else {
+                                format!("fts-{qkind}-limit-wrong-count")
+                            };
+                            problem = Some((sig, format!("returned {} documents, expected min(limit {l}, matches {})", got.len(), expected.len())));
+                        }
+                    } else if gset != expected {
+                        let (extra, missing) = set_diff(&gset, &expected);
+                        let qt = tokenize(base, &text);
+                        let deleted_extra = !extra.is_empty() && extra.iter().all(|i| !model.contains_key(i));
+                        // AND evaluated as OR by the flat search over unindexed rows
+                        let and_as_or = qkind == "and" && missing.is_empty() && !extra.is_empty()
+                            && extra.iter().all(|i| unindexed_ids.contains(i) && docs.get(i).map(|d| qt.iter().any(|t| d.contains(t))).unwrap_or(false));
+                        // phrase queries never look at unindexed rows / lose matches behind an earlier occurrence of a term
+                        let phrase_parts = qkind == "phrase" && extra.is_empty() && !missing.is_empty();
+                        let all_unidx = missing.iter().all(|i| unindexed_ids.contains(i));
+                        let all_explained = missing.iter().all(|i| unindexed_ids.contains(i) || phrase_behind(&qt, &docs[i]));
+                        // AND: a term that occurs in no indexed document is dropped from the conjunction
+                        let absent: Vec<&String> = qt.iter().filter(|t| !docs.iter().any(|(i, d)| !unindexed_ids.contains(i) && d.contains(*t))).collect();
+                        let and_absent = qkind == "and" && missing.is_empty() && !extra.is_empty() && !absent.is_empty()
+                            && extra.iter().all(|i| docs.get(i).map(|d| qt.iter().filter(|t| !absent.contains(t)).all(|t| d.contains(t)) || (unindexed_ids.contains(i) && qt.iter().any(|t| d.contains(t)))).unwrap_or(false));
+                        let sig = if deleted_extra {
+                            format!("fts-{qkind}-returns-deleted-documents")
+                        } else if and_absent {
+                            AND_ABSENT_SIG.to_string()
+                        } else if and_as_or {
+                            AND_AS_OR_SIG.to_string()
+                        } else if phrase_parts && all_unidx {
+                            PHRASE_UNINDEXED_SIG.to_string()
+                        } else if phrase_parts && all_explained && missing.iter().all(|i| !unindexed_ids.contains(i)) {
+                            PHRASE_POS_SIG.to_string()
+                        } else if phrase_parts && all_explained {
+                            format!("{PHRASE_UNINDEXED_SIG}+{PHRASE_POS_SIG}")
+                        } else {
+                            format!(
+                                "fts-{qkind}-{}",
+                                match (extra.is_empty(), missing.is_empty()) {
+                                    (false, true) => "returns-non-matching-documents",
+                                    (true, false) => "misses-matching-documents",
+                                    _ => "wrong-documents",
+                                }
+                            )
+                        };
+                        let show = |ids: &[i64]| -> Vec<String> { ids.iter().take(4).map(|i| format!("{i}: {:?}", model.get(i).cloned().flatten())).collect() };
+                        problem = Some((sig, format!("{} extra {} missing; extra {:?} missing {:?}", extra.len(), missing.len(), show(&extra), show(&missing))));
+                    }
+                    if problem.is_none() && got.windows(2).any(|w| w[0].1 < w[1].1) {
+                        problem = Some((format!("fts-{qkind}-scores-not-descending"), "scores increase along the result".into()));
+                    }
+                    if let Some((sig, what)) = problem {
+                        for one in sig.split('+') {
+                            report.violation(one, &what, witness(json!({"returned": trunc(&got, 10), "expected": expected.len()})));
+                        }
+                    }
+                    let shape = format!(
+                        "{base}|{state_kind}|{qkind}{}|{}|unindexed={unindexed}|v{}|m{}|{}",
+                        tokenize(base, &text).len(),
+                        limit.is_some(),
+                        vocab.len(),
+                        (expected.len() as f64).log2() as u32,
+                        text.chars().any(|c| !c.is_ascii()) as u8 + 2 * text.chars().any(|c| c.is_uppercase()) as u8
+                    );
+                    report.case(if nontrivial { Some(fnv_str(&shape)) } else { None });
+                    let pick = rng.chance(1, 50);
+                    if nontrivial && pick && report.want_sample() {
+                        report.sample(json!({"table": table_desc, "history": history, "query_kind": qkind, "query": text, "limit": limit, "matching": expected.len(), "docs": model.len(), "top": trunc(&got, 3)}));
+                    }
+                }
+            }
+        });
+    });
+    if selftest {
+        let (f, t) = (st_fired.load(AO::Relaxed), st_total.load(AO::Relaxed));
+        println!("SELFTEST C23 oracle fired on {f} of {t} corrupted observations");
+        return if t > 0 && f * 100 >= t * 99 { 0 } else { 2 };
+    }
+    report.assume("tokenizer restricted to base simple|whitespace + lower_case (no stemming, stop words, ascii folding, length limit): the configurations whose behaviour is documented");
+    report.assume("BM25 rank order is not enforced (only: scores non-increasing); see NOTES.md");
+    report.finish()
 }
